@@ -173,9 +173,27 @@ def build_harness(cmd):
     ovj = os.path.join(BUILD, "overlay_%s.json" % hashlib.sha1(REPO.encode()).hexdigest()[:8])
     with Lock("overlay"):
         sh([sys.executable, os.path.join(ROOT, "harness", "mkoverlay.py"), ovj], env=dict(os.environ, VERIF_REPO=REPO))
-    rc, o = sh([go_bin(), "build", "-tags", "verif", "-overlay", ovj,
-                "-o", out, "./cmd/" + cmd], cwd=REPO, env=go_env(), timeout=1800)
+    # tag verifint: the AUXILIARY add-only exports (harness/overlay/**/verif_export*.go tagged `verif && verifint`) that wrap
+    # unexported helpers which the exported entry points also reach (node encoders of the trie, permute, isValidTime, ...).
+    # When the tree no longer has such a helper under that name (a rewrite), the harness is built again without the tag: the
+    # `_stub.go` siblings panic with VERIF-UNAVAILABLE, the cases that call them come out as UNAVAILABLE and are skipped, and
+    # the streams through the exported API still decide the property.
+    if os.environ.get("VERIF_NO_INT"):      # self-test of the fallback: pretend the auxiliary exports do not compile
+        rc, o = 1, "VERIF_NO_INT set: auxiliary exports left out on purpose"
+    else:
+        rc, o = sh([go_bin(), "build", "-tags", "verif,verifint", "-overlay", ovj,
+                    "-o", out, "./cmd/" + cmd], cwd=REPO, env=go_env(), timeout=1800)
+    DEGRADED.pop(cmd, None)
+    if rc != 0:
+        rc2, o2 = sh([go_bin(), "build", "-tags", "verif", "-overlay", ovj,
+                      "-o", out, "./cmd/" + cmd], cwd=REPO, env=go_env(), timeout=1800)
+        if rc2 == 0:
+            DEGRADED[cmd] = o[-1500:]
+            return True, o[-4000:], out
     return rc == 0, o[-4000:], out
+
+
+DEGRADED = {}
 
 
 # ------------------------------------------------------------------------------------------------
@@ -355,7 +373,19 @@ def main(argv=None):
                     pipeline_err = "harness gen failed: " + (p.stderr or "")[-2000:]
         if not pipeline_err:
             impl_path, mism, done, pipeline_err = run_pipeline(pid, spec, hbin, cases_path, workdir)
-            nontriv = getattr(mod, "nontrivial", default_nontrivial)
+            nontriv0 = getattr(mod, "nontrivial", default_nontrivial)
+            nontriv = lambda i, o: (not o.startswith("UNAVAILABLE")) and nontriv0(i, o)
+            if spec["harness"] in DEGRADED:
+                skipped = [m for m in mism if m["impl"].startswith("UNAVAILABLE")]
+                mism = [m for m in mism if not m["impl"].startswith("UNAVAILABLE")]
+                ncmp = sum(1 for l in open(impl_path) if " | " in l and not l[l.find(" | ") + 3:].startswith("UNAVAILABLE"))
+                msg = ("DEGRADED harness: an auxiliary add-only export no longer compiles against this tree (an unexported helper was "
+                       "renamed or removed); %d case(s) that call it directly were skipped, %d case(s) through the other entry points "
+                       "were compared. Compiler: %s" % (len(skipped), ncmp, " / ".join(DEGRADED[spec["harness"]].splitlines()[-4:])))
+                notes.append(msg)
+                print("NOTE: " + msg[:600])
+                if ncmp == 0 and not pipeline_err:
+                    pipeline_err = "harness built only without its auxiliary exports and no case could be compared:\n" + DEGRADED[spec["harness"]]
             for line in open(cases_path):
                 if line.startswith("#STAT "):
                     try:
